@@ -53,6 +53,10 @@ CHECKS = {
             "Cases = 15 (thorough 17) polynomial/rational expression shapes x every ordered choice of distinct registers from {q0,q1,q3,q10} (thorough adds q2, q007) x {positional, keyword, both} x {plain, after a measurement, inside a for-loop}. For every case every resolution of the intercepted nondeterminism (iteration order of free_symbols at every site reached from blackbird code) is executed; in each the transform must list exactly the written registers and its function, applied in the listed order, must compute the written formula.",
             "The seam is in SymPy (Basic.free_symbols), installed by the harness; sets of ints are deterministic in CPython and not choice points.",
             "DESIGN.md section 5 C08"),
+    "C19": ("model_checking", "stateless schedule exploration of symbol-set iteration orders per pipeline stage + one real interpreter per PYTHONHASHSEED of a seed cover",
+            "For each of 18 scripts (several overlapping parameter names / registers in one argument, parameters in keywords, arrays and variables, tdm, loops, includes on 2-3 modes in non-increasing set order) and each stage (load, dumps, template call, to_DiGraph, match_template, second generation) every combination of iteration orders at every symbol-set iteration reached from blackbird code is executed and must give one observation; the whole menu is also run in fresh interpreters under hash seeds added until every k! order of every name group (as str and as Symbol) has been realised; all must agree.",
+            "Observation = canonical content (register lists normalised, function re-paired) + serialised text. Seam in SymPy free_symbols; other set sites are covered only by the real seed cover.",
+            "DESIGN.md section 5 C19"),
     # id: (category, technique, text, note, design_ref)
     "C02": ("exploration", "bounded-exhaustive enumeration of script prefixes (BFS over item sequences) vs reference denotation",
             "Every item sequence over the statement menu up to the stated depth is rendered, loaded by the real parser/evaluator and compared with an independently written reference denotation; complete for the stated alphabet and depth, nothing beyond.",
